@@ -192,6 +192,137 @@ def correspond(ctx):
                     if margins and abs(t + min(margins)) > 1e-8 * (1 + abs(t)):
                         ctx.violation('c08:max-step:' + name, "x + max_step(x) e is not on the boundary of the cone with 's' blocks (t = %r, expected %r; sigma %s; %s implementation)"
                                       % (t, -min(margins), 'given' if want_sigma else 'omitted', name), {'dims': d, 'mnl': mnl})
+    # ---- the remaining kernels against their definitions (reference formulas written from the doc strings; tolerance 1e-10 relative):
+    # ssqr, sprod(diag='D'), sinv, scale2, jdot, jnrm2, snrm2, sgemv (dense / sparse A, both trans, offsets), pack2 (multi-column)
+    from cvxopt import sparse as _sparse
+    def refclose(a, b, tol=1e-10): return all(abs(u - v) <= tol * (1 + abs(u) + abs(v)) for u, v in zip(a, b)) and len(a) == len(b)
+    def diag_interior(d, mnl):
+        v = [rng.choice([0.5, 1.0, 1.5, 2.0, 3.0]) for _ in range(mnl + d['l'])]
+        for m in d['q']:
+            t = [rng.choice([-1.0, -0.5, 0.0, 0.5, 1.0, 2.0]) for _ in range(m - 1)]
+            v += [math.sqrt(sum(a * a for a in t)) + rng.choice([0.5, 1.0, 2.0])] + t
+        v += [rng.choice([0.5, 1.0, 2.0, 4.0]) for _ in range(sum(d['s']))]
+        return v
+    for it in range(60 if ctx.quick() else 3000):
+        d = gen_dims(rng); mnl = rng.choice([0, 0, 1, 2, 3])
+        N = cdim(d, mnl); nlq = mnl + d['l'] + sum(d['q']); Nd = nlq + sum(d['s'])
+        xr = [rng.uniform(-2, 2) for _ in range(N)]; yd = diag_interior(d, mnl); yv = [rng.choice([-2.0, -1.0, 0.0, 0.5, 1.0, 3.0]) for _ in range(Nd)]
+        case = {'dims': d, 'mnl': mnl}
+        for name, M in impls:
+            # ssqr: x := y o y with diagonal 's' parts; x is longer than y (canaries behind)
+            X = matrix(7.0, (Nd + 2, 1)); M.ssqr(X, matrix(yv, (Nd, 1), 'd'), d, mnl); ident += 1
+            ref = [a * a for a in yv[:mnl + d['l']]]; o = mnl + d['l']
+            for m in d['q']:
+                ref += [sum(a * a for a in yv[o:o + m])] + [2.0 * yv[o] * a for a in yv[o + 1:o + m]]; o += m
+            ref += [a * a for a in yv[o:]] + [7.0, 7.0]
+            if not refclose(list(X), ref):
+                ctx.violation('c08:ssqr:' + name, 'ssqr(x, y, dims, mnl) differs from y o y (%s implementation): got %r, definition %r' % (name, list(X), ref), dict(case, y=yv))
+            # sprod with diag='D' and its inverse sinv (lower triangles of the 's' blocks)
+            X = matrix(xr, (N, 1), 'd'); M.sprod(X, matrix(yd, (Nd, 1), 'd'), d, mnl, diag='D'); ident += 1
+            ref = [a * b for a, b in zip(xr[:mnl + d['l']], yd)]; o = mnl + d['l']
+            for m in d['q']:
+                ref += [sum(a * b for a, b in zip(xr[o:o + m], yd[o:o + m]))] + [yd[o] * a + xr[o] * b for a, b in zip(xr[o + 1:o + m], yd[o + 1:o + m])]; o += m
+            low = []; o2 = o; os_ = nlq
+            for k in d['s']:
+                for j in range(k):
+                    for i in range(j, k): low.append((o2 + j * k + i, 0.5 * (yd[os_ + i] + yd[os_ + j])))
+                o2 += k * k; os_ += k
+            got = list(X)
+            if not refclose(got[:nlq], ref) or not refclose([got[q] for q, _ in low], [xr[q] * g for q, g in low]):
+                ctx.violation('c08:sprod-diag:' + name, "sprod(x, y, dims, mnl, diag='D') differs from y o x (%s implementation)" % name, dict(case, x=xr, y=yd))
+            M.sinv(X, matrix(yd, (Nd, 1), 'd'), d, mnl); ident += 1
+            got = list(X)
+            if not refclose(got[:nlq], xr[:nlq], 1e-8) or not refclose([got[q] for q, _ in low], [xr[q] for q, _ in low], 1e-8):
+                ctx.violation('c08:sinv-undoes-sprod:' + name, "sinv(sprod(x, y, diag='D'), y) does not give x back (%s implementation)" % name, dict(case, x=xr, y=yd))
+            X = matrix(xr, (N, 1), 'd'); M.sinv(X, matrix(yd, (Nd, 1), 'd'), d, mnl); ident += 1
+            got = list(X); ref = [a / b for a, b in zip(xr[:mnl + d['l']], yd)]; o = mnl + d['l']
+            for m in d['q']:
+                l0, l1, x0, x1 = yd[o], yd[o + 1:o + m], xr[o], xr[o + 1:o + m]
+                aa = l0 * l0 - sum(a * a for a in l1); dd = sum(a * b for a, b in zip(l1, x1))
+                ref += [(l0 * x0 - dd) / aa] + [(-a * x0 + (aa * b + a * dd) / l0) / aa for a, b in zip(l1, x1)]; o += m
+            if not refclose(got[:nlq], ref, 1e-8) or not refclose([got[q] for q, _ in low], [xr[q] / g for q, g in low], 1e-8):
+                ctx.violation('c08:sinv:' + name, 'sinv(x, y, dims, mnl) differs from its definition (%s implementation)' % name, dict(case, x=xr, y=yd))
+            # scale2: definition per block and inverse='I' undoes inverse='N' (whole 's' blocks are scaled)
+            for inv in 'NI':
+                X = matrix(xr, (N, 1), 'd'); M.scale2(matrix(yd, (Nd, 1), 'd'), X, d, mnl, inverse=inv); ident += 1
+                got = list(X)
+                ref = [(a / b if inv == 'N' else a * b) for a, b in zip(xr[:mnl + d['l']], yd)]; o = mnl + d['l']
+                for m in d['q']:
+                    a_ = math.sqrt(yd[o] ** 2 - sum(t * t for t in yd[o + 1:o + m])); l = [t / a_ for t in yd[o:o + m]]; xk = xr[o:o + m]
+                    if inv == 'N':
+                        lx = l[0] * xk[0] - sum(p_ * q_ for p_, q_ in zip(l[1:], xk[1:]))
+                        ref += [lx / a_] + [(q_ - (xk[0] + lx) / (l[0] + 1) * p_) / a_ for p_, q_ in zip(l[1:], xk[1:])]
+                    else:
+                        lx = sum(p_ * q_ for p_, q_ in zip(l, xk))
+                        ref += [a_ * lx] + [a_ * (q_ + (xk[0] + lx) / (l[0] + 1) * p_) for p_, q_ in zip(l[1:], xk[1:])]
+                    o += m
+                os_ = nlq
+                for k in d['s']:
+                    for j in range(k):
+                        for i in range(k):
+                            g = math.sqrt(yd[os_ + i] * yd[os_ + j]); ref.append(xr[o + j * k + i] / g if inv == 'N' else xr[o + j * k + i] * g)
+                    o += k * k; os_ += k
+                if not refclose(got, ref, 1e-9):
+                    ctx.violation('c08:scale2:' + name, "scale2(lmbda, x, dims, mnl, inverse='%s') differs from its definition (%s implementation)" % (inv, name), dict(case, x=xr, lmbda=yd))
+                M.scale2(matrix(yd, (Nd, 1), 'd'), X, d, mnl, inverse=('I' if inv == 'N' else 'N')); ident += 1
+                if not refclose(list(X), xr, 1e-8):
+                    ctx.violation('c08:scale2-inverse:' + name, "scale2 with inverse='I' does not undo inverse='N' (%s implementation)" % name, dict(case, x=xr, lmbda=yd))
+            # snrm2 is the norm of the inner product that is tied to the model
+            X = matrix(xr, (N, 1), 'd'); ident += 1
+            if abs(M.snrm2(X, d, mnl) ** 2 - M.sdot(X, X, d, mnl)) > 1e-10 * (1 + M.sdot(X, X, d, mnl)):
+                ctx.violation('c08:snrm2:' + name, 'snrm2(x)**2 != sdot(x, x) (%s implementation)' % name, case)
+            # jdot / jnrm2 with offsets
+            m_ = rng.randint(1, 4); ox, oy = rng.randint(0, 2), rng.randint(0, 2)
+            u = [rng.uniform(-2, 2) for _ in range(ox + m_ + 1)]; v = [rng.uniform(-2, 2) for _ in range(oy + m_ + 2)]
+            ident += 2
+            jd = M.jdot(matrix(u), matrix(v), n=m_, offsetx=ox, offsety=oy)
+            if abs(jd - (u[ox] * v[oy] - sum(a * b for a, b in zip(u[ox + 1:ox + m_], v[oy + 1:oy + m_])))) > 1e-12 * (1 + abs(jd)):
+                ctx.violation('c08:jdot:' + name, "jdot(x, y, n, offsetx, offsety) differs from x'Jy (%s implementation)" % name, {'n': m_, 'offsetx': ox, 'offsety': oy, 'x': u, 'y': v})
+            w = list(u); w[ox] = math.sqrt(sum(a * a for a in w[ox + 1:ox + m_])) + rng.choice([0.25, 1.0, 3.0])
+            jn = M.jnrm2(matrix(w), n=m_, offset=ox)
+            if abs(jn - math.sqrt(w[ox] ** 2 - sum(a * a for a in w[ox + 1:ox + m_]))) > 1e-10 * (1 + jn):
+                ctx.violation('c08:jnrm2:' + name, "jnrm2(x, n, offset) differs from sqrt(x'Jx) (%s implementation)" % name, {'n': m_, 'offset': ox, 'x': w})
+            # sgemv: A maps R^n to S ('s' blocks in 'L' storage: trans='T' reads the lower triangles, off-diagonal entries twice)
+            N0 = cdim(d); n_ = rng.randint(0, 3); oA = rng.choice([0, 0, 1]) if N0 else 0
+            rowsA = N0 + oA
+            Ad = [[rng.choice([-2.0, -1.0, 0.0, 0.0, 1.0, 0.5, 3.0]) for _ in range(rowsA)] for _ in range(n_)]      # columns
+            Am = matrix([a for col in Ad for a in col], (rowsA, n_), 'd')
+            al, be = rng.choice([1.0, -1.0, 2.5, 0.0]), rng.choice([0.0, 1.0, -0.5])
+            oxx, oyy = rng.randint(0, 2), rng.randint(0, 2)
+            xs0 = [rng.uniform(-2, 2) for _ in range(N0)]
+            lowmask = [True] * (d['l'] + sum(d['q']))
+            for k in d['s']: lowmask += [i >= j for j in range(k) for i in range(k)]
+            wt = [1.0] * (d['l'] + sum(d['q']))
+            for k in d['s']: wt += [(1.0 if i == j else (2.0 if i > j else 0.0)) for j in range(k) for i in range(k)]
+            for Aop, kindA in ((Am, 'dense'), (_sparse(Am), 'sparse')):
+                if oA and kindA == 'sparse': continue        # offsetA addresses the dense array
+                for tr in 'NT':
+                    xin = ([rng.uniform(-2, 2) for _ in range(n_)] if tr == 'N' else list(xs0)); yin = [rng.uniform(-2, 2) for _ in range(N0 if tr == 'N' else n_)]
+                    Xv = matrix([9.0] * oxx + xin + [9.0], (oxx + len(xin) + 1, 1), 'd'); Yv = matrix([8.0] * oyy + yin + [8.0], (oyy + len(yin) + 1, 1), 'd')
+                    try: M.sgemv(Aop, Xv, Yv, d, trans=tr, alpha=al, beta=be, n=n_, offsetA=oA, offsetx=oxx, offsety=oyy)
+                    except Exception as e:
+                        ctx.violation('c08:sgemv-raises:%s:%s' % (name, type(e).__name__), 'sgemv raised %s: %s (%s A, trans=%s, %s implementation)' % (type(e).__name__, e, kindA, tr, name), dict(case, n=n_)); continue
+                    ident += 1
+                    if tr == 'N': ref = [al * sum(Ad[j][oA + i] * xin[j] for j in range(n_)) + be * yin[i] for i in range(N0)]
+                    else: ref = [al * sum(Ad[j][oA + i] * wt[i] * xin[i] for i in range(N0)) + be * yin[j] for j in range(n_)]
+                    goty = list(Yv)
+                    if not refclose(goty[oyy:oyy + len(yin)], ref) or goty[:oyy] != [8.0] * oyy or goty[-1] != 8.0:
+                        ctx.violation('c08:sgemv:' + name, "sgemv(A, x, y, dims, trans='%s', alpha=%g, beta=%g, n=%d, offsetA=%d, offsetx=%d, offsety=%d) with %s A differs from its definition "
+                                      '(%s implementation): got %r, definition %r' % (tr, al, be, n_, oA, oxx, oyy, kindA, name, goty[oyy:oyy + len(yin)], ref), dict(case, A=Ad, x=xin, y=yin))
+                    gotx = list(Xv)
+                    keep = [q for q in range(len(xin)) if tr == 'N' or lowmask[q]]
+                    if [gotx[oxx + q] for q in keep] != [xin[q] for q in keep] or gotx[:oxx] != [9.0] * oxx or gotx[-1] != 9.0:
+                        ctx.violation('c08:sgemv-modifies-x:' + name, "sgemv changed its argument x (outside the upper triangles of the 's' blocks; %s implementation)" % name, dict(case, trans=tr))
+            # pack2: every column packed in place like pack does it
+            if N:
+                cols = rng.randint(1, 3)
+                data = [[rng.uniform(-2, 2) for _ in range(N)] for _ in range(cols)]
+                X2 = matrix([a for col in data for a in col], (N, cols), 'd'); M.pack2(X2, d, mnl); ident += 1
+                Np = nlq + sum(k * (k + 1) // 2 for k in d['s'])
+                for cidx in range(cols):
+                    Pc = matrix(0.0, (Np, 1)); misc_c.pack(matrix(data[cidx], (N, 1), 'd'), Pc, d, mnl)
+                    if not refclose(list(X2[:Np, cidx]), list(Pc), 1e-12):
+                        ctx.violation('c08:pack2:' + name, 'pack2 on column %d of a %d-column matrix differs from pack (%s implementation)' % (cidx, cols, name), dict(case, x=data[cidx])); break
     # ---- pack / unpack against the Lean model (Model/Kernels.lean packBlk / unpackBlk, theorems in Props/C08Pack.lean).  The kernels use
     # r = sqrt(2); packBlk is affine in r and unpackBlk in 1/r (x / 0 = 0 in Lean), so the model is evaluated exactly at r = 0 and r = 1 and
     # combined with the floating-point sqrt(2) here
